@@ -456,6 +456,22 @@ def _lin(x):
     return x if isinstance(x, Lin) else Lin({1: x})
 
 
+def check_positions_sim(chk, rule='C06.Q'):
+    from ..parsesim import run_error_positions
+    n, problems = run_error_positions(chk.repo, chk.tier, rule)
+    mod = chk.repo.module('parser')
+    by = {}
+    for k, m in problems:
+        by.setdefault(k, []).append(m)
+    for k, ms in by.items():
+        chk.bad(rule, mod, 'parse_script', f'{k}: {ms[0][:100]}', f'evaluation of parse_script on {n} faulty programs: {ms[0][:500]} ({len(ms)} deviations of this kind)', node=mod.funcs.get('parse_script'))
+    if not problems:
+        chk.ok(rule, f'{n} faulty programs (one faulty expression in every expression position of if / elif / while / for / return / assignment / call argument / expression statement, '
+               f'with prepended lines, a start line number and extra indentation; deleted closing keywords; final continuation backslash): documented parser errors with exact line text '
+               f'and number and a column inside the faulty expression', count=n)
+    return not problems
+
+
 def check_caret_sim(chk, pm):
     """C06.A primary: BareScriptParserError.__init__ evaluated on lines of length 0 .. 400 with the fault at every column: the error keeps the text, column and line number it
     was given, and the caret of the formatted message sits under the character line[column - 1] of the displayed (possibly elided) line -> True when decided OK"""
@@ -685,7 +701,13 @@ def run(chk):
     chk.rule('C06.A', 'caret placement under elision (algebraic identity per branch)', floor=3)
     chk.assumptions += ['recursion depth of the expression parser is linear in line length / nesting (inside the bounds of the quantifier)',
                         'regex engine semantics are CPython\'s; start_line_number is an integer']
+    chk.rule('C06.Q', 'parse_script and parse_expression evaluated (E6p) on programs with one faulty expression in every statement form: BareScriptParserError with the text of the faulty '
+             'line, a column inside the faulty expression, the 1-based line number; prepended lines, a start line and indentation move the position by exactly their amount; open blocks, '
+             'deleted closers and a final continuation backslash are rejected', floor=100)
+    pos_ok = chk.guard('C06.Q', check_positions_sim, chk)
     pm = ParserModel(chk.repo, 'C06.P')
+    # the abstract-line engines below decide the same clauses for every line shape (trailing blanks, empty continuation parts, every regex group): they stay armed - the concrete
+    # samples above are an additional, independent reading, not yet rich enough to take their place (tried: 12 seeded changes were then missed)
     chk.guard('C06.P', check_positions, chk, pm)
     from .c10 import check_no_splitlines
     chk.guard('C06.N', check_no_splitlines, chk, pm, 'C06.N')
